@@ -7,6 +7,23 @@
 
 namespace etl {
 
+namespace detail {
+
+template <typename T>
+[[nodiscard]] constexpr auto fmin(T x, T y) noexcept -> T
+{
+    // a NaN argument is treated as missing data: the other argument is returned
+    if (x != x) {
+        return y;
+    }
+    if (y != y) {
+        return x;
+    }
+    return y > x ? x : y;
+}
+
+} // namespace detail
+
 /// \ingroup cmath
 /// @{
 
@@ -15,20 +32,20 @@ namespace etl {
 /// chosen)
 ///
 /// https://en.cppreference.com/w/cpp/numeric/math/fmin
-[[nodiscard]] constexpr auto fmin(float x, float y) noexcept -> float { return etl::detail::gcem::min(x, y); }
+[[nodiscard]] constexpr auto fmin(float x, float y) noexcept -> float { return etl::detail::fmin(x, y); }
 
-[[nodiscard]] constexpr auto fminf(float x, float y) noexcept -> float { return etl::detail::gcem::min(x, y); }
+[[nodiscard]] constexpr auto fminf(float x, float y) noexcept -> float { return etl::detail::fmin(x, y); }
 
-[[nodiscard]] constexpr auto fmin(double x, double y) noexcept -> double { return etl::detail::gcem::min(x, y); }
+[[nodiscard]] constexpr auto fmin(double x, double y) noexcept -> double { return etl::detail::fmin(x, y); }
 
 [[nodiscard]] constexpr auto fmin(long double x, long double y) noexcept -> long double
 {
-    return etl::detail::gcem::min(x, y);
+    return etl::detail::fmin(x, y);
 }
 
 [[nodiscard]] constexpr auto fminl(long double x, long double y) noexcept -> long double
 {
-    return etl::detail::gcem::min(x, y);
+    return etl::detail::fmin(x, y);
 }
 
 /// @}
